@@ -6,6 +6,7 @@ package main
 import (
 	"bytes"
 	"os"
+	"strings"
 
 	"verifharness/smtpd"
 	"verifharness/vh"
@@ -18,6 +19,26 @@ func gen(g *vh.Gen) {
 		c.DA, c.DS = true, true
 		stream := smtpd.GenDialogue(g, c, pool, o)
 		g.Emit("smtp", append(c.Fields(), vh.H(stream))...)
+	}
+	// long physical lines around the sizes of read buffers (4 KiB steps), ending in a dot, a CR or a letter, in messages
+	// on both sides of the limit: a line reader that hands out a long line in pieces must not take a piece for a line
+	for i := 0; i < g.N(12, 300); i++ {
+		c, pool := smtpd.GenCfg(g, o)
+		c.DA, c.DS, c.Acc, c.Rej, c.Sto, c.Dis, c.RejO, c.MaxRcpt = true, true, "", "", "", "", "", 200
+		c.MaxBytes = g.Pick2(5000, 9000, 20000, 65536)
+		n := g.Pick2(4095, 4096, 4097, 4098, 8192, 8193, 12289, 65537)
+		long := strings.Repeat("p", n-1) + g.Pick(".", ".", "\r", "x")
+		ls := []string{"Subject: long line", "", "first", long}
+		for k := g.Intn(4); k > 0; k-- {
+			ls = append(ls, g.Pick("tail", ".", "..", strings.Repeat("q", g.Pick2(100, 1000, 4097))))
+		}
+		var b strings.Builder
+		b.WriteString("HELO long.example\r\nMAIL FROM:<s@" + pool[0] + ">\r\nRCPT TO:<alice@" + pool[1] + ">\r\nDATA\r\n")
+		b.WriteString(smtpd.StuffLines(ls))
+		b.WriteString("NOOP\r\nMAIL FROM:<s@" + pool[0] + ">\r\nRCPT TO:<bob@" + pool[1] + ">\r\nDATA\r\n")
+		b.WriteString(smtpd.StuffLines([]string{"x"}))
+		b.WriteString("QUIT\r\n")
+		g.Emit("smtp", append(c.Fields(), vh.H([]byte(b.String())))...)
 	}
 	// refusal storms: many oversized blocks refused in a row on one server, then a message that fits
 	for i := 0; i < g.N(3, 60); i++ {
